@@ -159,6 +159,9 @@ func RunOne(t *testing.T, spec Spec) (res *Result) {
 				}
 				res.RouterLog = c.W.Log.Tail(60)
 			}
+			if !s.RootDone && len(res.Violations) == 0 && !s.StepLimit {
+				res.Violations = append(res.Violations, "scenario never finished: blocked forever at "+s.RootSite+" (nothing left to run before the horizon)")
+			}
 			if s.StepLimit {
 				res.Probes["step_limit"]++
 			}
